@@ -55,6 +55,7 @@ var targets = []target{
 type site struct {
 	pkg, fn, kind, expr string
 	occ                 int
+	raw                 string // source text of the expression (evidence only)
 }
 
 // key identifies a site by function, kind and expression text. Occurrences of the same
@@ -194,6 +195,7 @@ func main() {
 	repo := flag.String("repo", "/repo", "repository root")
 	out := flag.String("out", "", "output Lean file")
 	verif := flag.String("verif", "/verif", "verif root (site table, oracle list)")
+	initOracle := flag.Bool("init-oracle", false, "rewrite oracle_sites.txt from the sites that are neither theorem nor syntactic")
 	flag.Parse()
 	var sites []site
 	var problems []string
@@ -220,9 +222,9 @@ func main() {
 			for _, n := range names {
 				files = append(files, pkg.Files[n])
 			}
-			info := &types.Info{Types: map[ast.Expr]types.TypeAndValue{}}
+			info := &types.Info{Types: map[ast.Expr]types.TypeAndValue{}, Defs: map[*ast.Ident]types.Object{}, Uses: map[*ast.Ident]types.Object{}}
 			conf := types.Config{Importer: &fakeImporter{map[string]*types.Package{}}, Error: func(error) {}}
-			conf.Check(pkg.Name, fset, files, info)
+			tpkg, _ := conf.Check(pkg.Name, fset, files, info)
 
 			want := map[string]bool{}
 			for _, f := range tg.funcs {
@@ -275,10 +277,11 @@ func main() {
 					}
 					want[fn] = true
 					occ := map[string]int{}
+					nz := newNormalizer(fset, info, tpkg, fd)
 					add := func(kind string, e ast.Node) {
-						t := exprText(fset, e)
+						t := nz.text(e)
 						k := kind + "|" + t
-						sites = append(sites, site{tg.dir, fn, kind, t, occ[k]})
+						sites = append(sites, site{tg.dir, fn, kind, t, occ[k], exprText(fset, e)})
 						occ[k]++
 					}
 					ast.Inspect(fd.Body, func(n ast.Node) bool {
@@ -363,6 +366,7 @@ func main() {
 	}
 	// two validatable accessors that are not single expressions are noted as problems, never skipped
 	sort.SliceStable(sites, func(i, j int) bool { return sites[i].key() < sites[j].key() })
+	rawSites := append([]site{}, sites...)
 	counts := map[string]int{}
 	var uniq []site
 	for _, s := range sites {
@@ -389,6 +393,29 @@ func main() {
 			leanStr(s.expr), leanStr(hex.EncodeToString(h[:6])), counts[s.key()], sep)
 	}
 	b.WriteString("]\n\n")
+	// comparison of the regenerated keys with the hand-maintained table `siteTable` (done here: a
+	// kernel `decide` over 238 long strings takes minutes); Lean proves `tableMismatch = []`
+	var mismatch []string
+	if tk, err := readMainTable(filepath.Join(*verif, "lean", "NA", "Proofs", "C20Sites.lean")); err != nil {
+		mismatch = append(mismatch, "cannot read site table: "+err.Error())
+	} else {
+		gen := map[string]bool{}
+		for _, s := range sites {
+			gen[s.key()] = true
+			if !tk[s.key()] {
+				mismatch = append(mismatch, "not in siteTable: "+s.key())
+			}
+		}
+		var extra []string
+		for k := range tk {
+			if !gen[k] {
+				extra = append(extra, "in siteTable but not in the source: "+k)
+			}
+		}
+		sort.Strings(extra)
+		mismatch = append(mismatch, extra...)
+	}
+	fmt.Fprintf(&b, "def tableMismatch : List String := %s\n\n", leanStrList(mismatch))
 	b.WriteString("def problems : List String := [")
 	for i, p := range problems {
 		if i > 0 {
@@ -459,7 +486,31 @@ func main() {
 	fmt.Fprintf(&b, "def unclassified : List String := %s\n\n", leanStrList(all.Unclassified))
 	fmt.Fprintf(&b, "def reachablePackages : List String := %s\n\n", leanStrList(all.Packages))
 	b.WriteString("end NA.Gen.PanicSites\n")
+	if *initOracle {
+		// (re)write the oracle-only list from what is neither theorem nor syntactic now
+		var ks []string
+		for k := range all.Residual {
+			ks = append(ks, k)
+		}
+		sort.Strings(ks)
+		var ob strings.Builder
+		ob.WriteString("# Sites of the whole-program pass of translate/panicsites that are covered by the ORACLE ONLY:\n")
+		ob.WriteString("# no lemma of lean/NA/Proofs/C20Sites.lean and no syntactic guard pattern recognised by the translator.\n")
+		ob.WriteString("# One line per (package | kind | normalised expression) <TAB> number of occurrences accepted.\n")
+		ob.WriteString("# Locals are printed as ‹type›, single-assignment locals are expanded; the function name is not part of the key.\n")
+		ob.WriteString("# More occurrences than listed make obligation all_sites_classified fail.\n\n")
+		for _, k := range ks {
+			fmt.Fprintf(&ob, "%s\t%d\n", k, all.Residual[k])
+		}
+		os.WriteFile(filepath.Join(*verif, "translate", "panicsites", "oracle_sites.txt"), []byte(ob.String()), 0644)
+		fmt.Fprintln(os.Stderr, "panicsites: oracle_sites.txt rewritten:", len(ks), "entries")
+	}
 	if *out != "" {
+		var p1 []map[string]string
+		for _, s := range rawSites {
+			p1 = append(p1, map[string]string{"key": s.key(), "rawkey": fmt.Sprintf("%s.%s|%s|%s", s.pkg, s.fn, s.kind, s.raw)})
+		}
+		all.Pass1 = p1
 		if err := writeJSON(strings.TrimSuffix(*out, ".lean")+"All.json", all); err != nil {
 			fmt.Fprintln(os.Stderr, err)
 			os.Exit(1)
